@@ -40,7 +40,10 @@ pub mod websocket;
 #[cfg(test)]
 pub(crate) mod dummy;
 
+#[cfg(not(feature = "verif"))]
 pub(crate) mod manager;
+#[cfg(feature = "verif")]
+pub mod manager;
 
 pub use manager::limits::{ConnectionLimitsConfig, ConnectionLimitsError};
 
